@@ -7,7 +7,7 @@
    check); the `_partial`/flat theorems next to them carry the narrowest boolean hypothesis.
    Nesting depth of tables inside cells is bounded by 1 in the source type (`citem`). *)
 From Coq Require Import ZArith List Bool Permutation.
-From S2T Require Import Lib.PyStr C13.Model C13.ProofsHtml C13.ProofsSheets C13.ProofsOds C13.ProofsTree C13.ProofsRtf C13.ProofsOrder.
+From S2T Require Import Lib.PyStr C13.Model C13.ProofsHtml C13.ProofsSheets C13.ProofsOds C13.ProofsTree C13.ProofsRtf C13.ProofsOrder C13.ProofsRows.
 Import ListNotations.
 Notation length := List.length.
 Notation concat := List.concat.
@@ -320,3 +320,35 @@ Theorem C13_slide_tables_same_position : forall (c : poskey) (ts : list (option 
   slide_tables (map (fun t => (c, t)) ts) = flat_map frame_tables (map (fun t => (c, t)) ts).
 Proof. exact slide_tables_same_position. Qed.
 Print Assumptions C13_slide_tables_same_position.
+
+(* ---------------------------------------------------------------- rows / frames behind wrappers (repaired code)
+   ODS _iter_sheet_rows, ODP _iter_table_rows: rows wrapped in table:table-header-rows, table:table-rows,
+   table:table-row-group — any nesting, any mix with direct rows — are all read, in document order;
+   ODP _iter_slide_frames: frames inside (nested) draw:g groups likewise *)
+Theorem C13_table_rows_through_wrappers : forall t a x l (segs : list (list str * list xml)),
+  forallb (fun sg => chain_ok TABLE_ROW ROW_WRAPPERS (fst sg) && forallb (tag_is TABLE_ROW) (snd sg)) segs = true ->
+  table_rows (Elem t a x (flat_map (fun sg => wrap_chain (fst sg) (snd sg)) segs) l) = flat_map snd segs.
+Proof. intros t a x l segs. exact (collect_through_segments TABLE_ROW ROW_WRAPPERS t a x l segs). Qed.
+Print Assumptions C13_table_rows_through_wrappers.
+
+(* hence a sheet / table with wrapped rows is read exactly like the one with the same rows unwrapped,
+   to which the round-trip theorems above apply *)
+Theorem C13_ods_sheet_wrapped : forall pint pflt (segs : list (list str * list xml)),
+  forallb (fun sg => chain_ok TABLE_ROW ROW_WRAPPERS (fst sg) && forallb (tag_is TABLE_ROW) (snd sg)) segs = true ->
+  ods_sheet pint pflt (E TABLE_TABLE (flat_map (fun sg => wrap_chain (fst sg) (snd sg)) segs))
+  = ods_sheet pint pflt (E TABLE_TABLE (flat_map snd segs)).
+Proof. exact ods_sheet_wrapped. Qed.
+Print Assumptions C13_ods_sheet_wrapped.
+
+Theorem C13_odp_table_wrapped : forall pint skip (segs : list (list str * list xml)),
+  forallb (fun sg => chain_ok TABLE_ROW ROW_WRAPPERS (fst sg) && forallb (tag_is TABLE_ROW) (snd sg)) segs = true ->
+  odp_table pint skip (E TABLE_TABLE (flat_map (fun sg => wrap_chain (fst sg) (snd sg)) segs))
+  = odp_table pint skip (E TABLE_TABLE (flat_map snd segs)).
+Proof. exact odp_table_wrapped. Qed.
+Print Assumptions C13_odp_table_wrapped.
+
+Theorem C13_slide_frames_groups : forall t a x l (segs : list (list str * list xml)),
+  forallb (fun sg => chain_ok DRAW_FRAME [DRAW_G] (fst sg) && forallb (tag_is DRAW_FRAME) (snd sg)) segs = true ->
+  slide_frames (Elem t a x (flat_map (fun sg => wrap_chain (fst sg) (snd sg)) segs) l) = flat_map snd segs.
+Proof. exact slide_frames_groups. Qed.
+Print Assumptions C13_slide_frames_groups.
